@@ -28,6 +28,7 @@ HARNESS_MODULES = {
     "serde.rs": "src/utils/serde.rs",
     "channel.rs": "src/channel.rs",
     "aes_rng.rs": "src/crypto/aes_rng.rs",
+    "aes_hash.rs": "src/crypto/aes_hash.rs",
     "fpre.rs": "src/mpc/fpre.rs",
     "kos.rs": "src/ot_core/kos.rs",
     "file_or_mem_buf.rs": "src/utils/file_or_mem_buf.rs",
